@@ -334,7 +334,14 @@ def rule_reason(R):
     roles.clause_reason_predicates(R, "reason")
 
 
+def rule_shared_order(R):
+    """on a resumed session every unacknowledged packet is retransmitted whole and in order: compaction slides entries down in list order, so no removal may reorder the retained list (and the release list keeps its order) -- C02's / C17's clause"""
+    from .c02 import clause_order
+    clause_order(R, "order", ("retained", "pending_release"), " -- compact() is only correct while the list is in arena order; replay follows list order")
+
+
 def run(R):
+    R.rule("order", rule_shared_order)
     R.rule("reason", rule_reason)
     R.rule("status", rule_status)
     R.rule("wire", rule_wire)
